@@ -338,8 +338,14 @@ def handle (req impl : String) : String × String :=
           let quirks := (if ref.nestedAT then ["nested-actualtext"] else []) ++
                         (if ref.quotes then ["winansi-quotes"] else []) ++
                         (if ref.inherited then ["inherited-font-name"] else [])
+          -- the same runs with EVERY run-final hyphen optional: a failure that disappears under
+          -- this pattern is explained by hyphen fusion alone (finding C11-F4: under
+          -- `merge_hyphenated` each line-wrap append with an empty text pops one more hyphen)
+          let spAll := ref.runs.reverse.flatMap (fun r => runToks o.mh r r.length)
+          let chain := o.mh && matchMulti cut spAll a.x && (!o.pl || matchMulti cut spAll a.f)
           let lose (what : String) :=
-            if xOk && fOk && !quirks.isEmpty then "fail:quirk[" ++ ",".intercalate quirks ++ "]"
+            if xOk && fOk && chain then "fail:quirk[hyphen-chain]"
+            else if xOk && fOk && !quirks.isEmpty then "fail:quirk[" ++ ",".intercalate quirks ++ "]"
             else what
           if !a.d then "fail:not-deterministic"
           else if !a.b then "fail:text-longer-than-max_extracted_bytes"
